@@ -112,10 +112,22 @@ T5 = [
  ("R5_C08_3", "D", 3, [("demo3.rs", "solver/tests/demo3.rs")], "cargo test -p solver --offline --test demo3", ["C08"]),
 ]
 
+T6 = [
+ ("R6_C02_1", "E", 1, [("demo1.rs", "server/tests/demo1.rs")], "cargo test -p server --offline --test demo1", ["C02", "C10", "C11"]),
+ ("R6_C02_2", "E", 2, [("demo2.rs", "solution/tests/demo2.rs")], "cargo test -p solution --offline --test demo2", ["C02", "C10", "C13"]),
+ ("R6_C05_3", "E", 3, [("demo3.rs", "internal/tests/demo3.rs")], "cargo test -p internal --offline --test demo3", ["C05", "C16"]),
+ ("R6_C17_1", "G", 1, [("demo1.rs", "model/tests/demo1.rs")], "cargo test -p model --offline --test demo1", ["C17", "C01"]),
+ ("R6_C16_2", "G", 2, [("demo2.rs", "internal/tests/demo2.rs")], "cargo test -p internal --offline --test demo2", ["C16", "C05", "C04"]),
+ ("R6_C18_1", "F", 1, [("demo1.rs", "server/tests/demo1.rs")], "cargo test -p server --offline --test demo1", ["C18"]),
+ ("R6_C13_2", "F", 2, [("demo2.rs", "solution/tests/demo2.rs")], "cargo test -p solution --offline --test demo2", ["C13", "C10", "C09"]),
+ ("R6_C18_3", "F", 3, [("demo3.rs", "server/tests/demo3.rs")], "cargo test -p server --offline --test demo3", ["C18"]),
+ ("R6_C01_3", "G", 3, [("demo3.rs", "server/tests/demo3.rs")], "cargo test -p server --offline --test demo3", ["C01", "C12", "C10"]),
+]
+
 def confirm2(only):
     path = "/verif/notes/seeded2_confirm.json"
     res = json.load(open(path)) if os.path.exists(path) else {}
-    for (key, wtid, k, demos, cmd, _checks) in T2 + T3 + T4 + T5:
+    for (key, wtid, k, demos, cmd, _checks) in T2 + T3 + T4 + T5 + T6:
         if only and key not in only:
             continue
         wt = "%s/%s" % (SRC, wtid); out = "%s/%s-out" % (SRC, wtid)
@@ -143,16 +155,18 @@ def confirm2(only):
         json.dump(res, open(path, "w"), indent=1)
 
 def detect2(only):
-    path = "/verif/notes/seeded2_detect.json"
+    path = os.environ.get("SEEDED_DETECT2_PATH", "/verif/notes/seeded2_detect.json")
     res = json.load(open(path)) if os.path.exists(path) else {}
     if sh("git -C /repo diff --quiet")[0] != 0:
         print("/repo dirty"); sys.exit(2)
-    for (key, wtid, k, demos, cmd, checks) in T2 + T3 + T4 + T5:
+    for (key, wtid, k, demos, cmd, checks) in T2 + T3 + T4 + T5 + T6:
         if only and key not in only:
             continue
         diff = "%s/%s-out/change%d.diff" % (SRC, wtid, k)
         if not os.path.exists(diff):
             diff = "/verif/seeded/%s/patch.diff" % key
+        if os.path.exists("/verif/seeded/%s/patch_rebased.diff" % key):
+            diff = "/verif/seeded/%s/patch_rebased.diff" % key
         if not os.path.exists(diff):
             print(key, "no diff"); continue
         rc, o = sh("git -C /repo apply %s" % diff)
@@ -215,7 +229,7 @@ def confirm(only):
         json.dump(res, open(path, "w"), indent=1)
 
 def detect(only):
-    path = "/verif/notes/seeded_detect.json"
+    path = os.environ.get("SEEDED_DETECT_PATH", "/verif/notes/seeded_detect.json")
     res = json.load(open(path)) if os.path.exists(path) else {}
     if sh("git -C /repo diff --quiet")[0] != 0:
         print("/repo dirty"); sys.exit(2)
